@@ -409,6 +409,8 @@ def c07(ev, tier, seed):
                "real Token::run comparing handler invocations (request, environment, bytes read), the outbound byte stream and "
                "whether run() returned. Non-trivial: more than two transport events.")
     conn_model(ev, "C07", seed, "basic-b24", 24, ["basic", "abort", "query"])
+    # queries next to stream data with the write side not ready at that moment (the handler's input must not be lost)
+    conn_model(ev, "C07", seed, "query-pend", 24, ["query"], spurious=True, maxcuts=0, maxpend=1)
     conn_traces(ev, "C07", seed, 400 if tier == "thorough" else 60, sizes=(24, 256, 8192) if tier == "thorough" else (24, 8192))
     if tier == "thorough":
         # (three partial transfers over all three families at once exceeds a 16 GB heap since the big-record scenarios were added)
